@@ -151,10 +151,17 @@ impl TypeEnv {
     }
 
     pub fn register_extern_type(&mut self, goml_name: String) {
+        // The goml name is qualified with its package (`Lib::Time`); the Go type it is
+        // bound to is called like the declared identifier.
+        let go_name = goml_name
+            .rsplit("::")
+            .next()
+            .unwrap_or(goml_name.as_str())
+            .to_string();
         self.extern_types
-            .entry(goml_name.clone())
+            .entry(goml_name)
             .or_insert_with(|| ExternType {
-                go_name: goml_name.clone(),
+                go_name,
                 package_path: None,
             });
     }
